@@ -226,6 +226,44 @@ func c19Custom(r *core.Run, tier string) {
 	r.AddCustom("cli_vs_api", "the 12-program pool through the real command and through the in-process API: identical bytes, parse failures agree", nil, int64(len(pool))+1, int64(len(pool)), int64(len(pool)), int64(len(pool)), 1, true, time.Since(t1).Seconds())
 
 	c19Charsets(r, tier)
+	c19LongAndMixed(r)
+}
+
+// c19LongAndMixed: sources that stress how the command READS its file: very long lines (comment,
+// string, DB list), many lines, a file mixing Shift_JIS and UTF-8 comment lines, a trailing
+// comment without newline - the command's output must equal the in-process API's.
+func c19LongAndMixed(r *core.Run) {
+	t0 := time.Now()
+	p := r.Cfg.Pool
+	body := "\tMOV AX,0\n\tMOV SS,AX\n\tMOV SP,0x7c00\nfin:\n\tHLT\n\tJMP fin\n\tDB 0x55,0xaa\n"
+	sjis := "\x93\xfa\x96\x7b\x8c\xea\x83\x5c" // Shift_JIS text ending in a 0x5C trail byte
+	utf8 := "日本語ソ"
+	type in struct{ name, cliSrc, apiSrc string }
+	dbl := "\tDB 1" + strings.Repeat(",1", 40000) + "\n"
+	ins := []in{
+		{"comment_100k", "\t; " + strings.Repeat("c", 100000) + "\n" + body, body},
+		{"comment_70k_after_statement", "\tMOV AX,0 ; " + strings.Repeat("x", 70000) + "\n" + body, "\tMOV AX,0\n" + body},
+		{"string_70k", "\tDB \"" + strings.Repeat("a", 70000) + "\"\n" + body, "\tDB \"" + strings.Repeat("a", 70000) + "\"\n" + body},
+		{"db_list_40k", dbl + body, dbl + body},
+		{"lines_20k", strings.Repeat("\tNOP\n", 20000) + body, strings.Repeat("\tNOP\n", 20000) + body},
+		{"mixed_sjis_utf8_comments", "\tMOV AX,1 ; " + sjis + "\n\tMOV BX,2 ; " + utf8 + "\n" + body + "; " + sjis + "\n; " + utf8 + "\n\tDB 0x42\n", "\tMOV AX,1\n\tMOV BX,2\n" + body + "\tDB 0x42\n"},
+		{"sjis_comments_many", strings.Repeat("\tNOP ; "+sjis+"\n", 300) + body, strings.Repeat("\tNOP\n", 300) + body},
+		{"utf8_comments_many", strings.Repeat("\tNOP ; "+utf8+"\n", 300) + body, strings.Repeat("\tNOP\n", 300) + body},
+		{"sjis_comment_last_line_no_newline", body + "\tDB 0x42 ; " + sjis, body + "\tDB 0x42\n"},
+	}
+	var n int64
+	for _, x := range ins {
+		api := p.Exec(x.apiSrc)
+		cli := p.CLI(x.cliSrc, nil, false)
+		n++
+		if cli.ExitCode != 0 || !bytes.Equal(cli.Out, api.Out) {
+			r.AddFail("cli_reading", x.name, map[string]string{"input": x.name}, nil,
+				core.Fail{Facet: "cli_vs_api", Dev: "differs:" + x.name, Detail: fmt.Sprintf("command: exit %d, %d bytes (%x...); API on the comment-free source: %d bytes", cli.ExitCode, len(cli.Out), cli.Out[:min(len(cli.Out), 16)], len(api.Out))})
+		}
+		r.AddNT("cli_reading|" + x.name)
+	}
+	r.AddCustom("cli_reading", "9 sources that stress how the command reads its file (100 000-character comment, 70 000-character string, 40 000-item DB list, 20 000 lines, Shift_JIS and UTF-8 comment lines mixed in one file, 300 non-ASCII comments, non-ASCII comment on a last line without newline): exit 0 and bytes equal to the in-process API on the comment-free source",
+		nil, n+1, n, n, n, 1, true, time.Since(t0).Seconds())
 }
 
 // c19Charsets: comments containing every Shift_JIS double-byte code, half-width katakana byte,
